@@ -987,4 +987,125 @@ theorem remove_frame {s : NodeIds} (h : NodeInv s) {node : Int} (hv : s.validSlo
     (hw : w ≠ node.toNat) : (s.remove node).2.global.getD w (-1) = s.global.getD w (-1) := by
   rw [(remove_fields h hv).1, getD_set_ne hw]
 
+
+/-! ### the id pool, `next_global`, and the trial-vertex round trip -/
+
+theorem NodeInv.congr {a b : NodeIds} (h : NodeInv a) (hg : b.global = a.global) (hb : b.blank = a.blank)
+    (hn : b.n = a.n) (hs : b.sorted = a.sorted) : NodeInv b := by
+  refine ⟨h.free.congr hg hb hn, ?_, ?_, ?_, ?_⟩
+  · simpa [keys, hs] using h.srt.sorted
+  · intro p hp; rw [hg]; rw [hs] at hp; exact h.srt.sound p hp
+  · intro v hv; rw [hg] at hv ⊢; rw [hs]; exact h.srt.complete v hv
+  · rw [hs, hn]; exact h.srt.len
+
+theorem liveSlot_congr {a b : NodeIds} (hg : b.global = a.global) (x : Int) : b.liveSlot x = a.liveSlot x := by
+  simp [NodeIds.liveSlot, hg]
+
+/-- no pooled id is negative, no pooled id is live -/
+structure PoolInv (s : NodeIds) : Prop where
+  nonneg : ∀ x, s.abs.pool x → 0 ≤ x
+  fresh : ∀ x, s.abs.pool x → s.liveSlot x = none
+
+theorem nextGlobal_cons {s : NodeIds} {g : Int} {rest : List Int} (hu : s.unusedStk = g :: rest) :
+    s.nextGlobal = (.ok, g, { s with unusedStk := rest }) := by
+  simp [nextGlobal, nUnused, popUnused, hu]
+
+theorem nextGlobal_nil {s : NodeIds} (hu : s.unusedStk = []) :
+    s.nextGlobal = (.ok, s.effNew,
+      { s with oldN := if s.newN = -1 then (s.n : Int) else s.oldN, newN := s.effNew + 1 }) := by
+  have h0 : s.nUnused = 0 := by simp [nUnused, hu]
+  simp only [nextGlobal, h0, Nat.lt_irrefl, if_false, NodeIds.effNew, initNGlobal]
+  split <;> rfl
+
+/-- `ref_node_next_global` returns an id of the pool -/
+theorem nextGlobal_mem_pool (s : NodeIds) : s.nextGlobal.1 = .ok ∧ s.abs.pool s.nextGlobal.2.1 := by
+  cases hu : s.unusedStk with
+  | nil => rw [nextGlobal_nil hu]; exact ⟨rfl, Or.inr (Int.le_refl _)⟩
+  | cons g rest => rw [nextGlobal_cons hu]; exact ⟨rfl, Or.inl (by simp [hu])⟩
+
+theorem nextGlobal_keeps (s : NodeIds) :
+    s.nextGlobal.2.2.global = s.global ∧ s.nextGlobal.2.2.blank = s.blank ∧ s.nextGlobal.2.2.n = s.n ∧
+      s.nextGlobal.2.2.sorted = s.sorted := by
+  cases hu : s.unusedStk with
+  | nil => rw [nextGlobal_nil hu]; exact ⟨rfl, rfl, rfl, rfl⟩
+  | cons g rest => rw [nextGlobal_cons hu]; exact ⟨rfl, rfl, rfl, rfl⟩
+
+theorem validSlot_of_getD {s : NodeIds} {v : Nat} (h : 0 ≤ s.global.getD v (-1)) :
+    s.validSlot (v : Int) = true := validSlot_iff.2 ⟨by omega, by simpa using h⟩
+
+/-- **C13, id clause**: a vertex created with the next global id and removed again (rejected split)
+    leaves the abstract state — live map and id pool — exactly as it was. -/
+theorem trial_roundtrip {s : NodeIds} (h : NodeInv s) (hp : PoolInv s) :
+    (s.nextGlobal).1 = .ok ∧
+    ((s.nextGlobal).2.2.add (s.nextGlobal).2.1).1 = .ok ∧
+    ((((s.nextGlobal).2.2.add (s.nextGlobal).2.1).2.2).remove
+        (((s.nextGlobal).2.2.add (s.nextGlobal).2.1).2.1 : Int)).1 = .ok ∧
+    NodeInv ((((s.nextGlobal).2.2.add (s.nextGlobal).2.1).2.2).remove
+        (((s.nextGlobal).2.2.add (s.nextGlobal).2.1).2.1 : Int)).2 ∧
+    ((((s.nextGlobal).2.2.add (s.nextGlobal).2.1).2.2).remove
+        (((s.nextGlobal).2.2.add (s.nextGlobal).2.1).2.1 : Int)).2.abs = s.abs := by
+  obtain ⟨hok1, hpool⟩ := nextGlobal_mem_pool s
+  obtain ⟨kg, kb, kn, ks⟩ := nextGlobal_keeps s
+  have hg0 : 0 ≤ s.nextGlobal.2.1 := hp.nonneg _ hpool
+  have hfresh : s.liveSlot s.nextGlobal.2.1 = none := hp.fresh _ hpool
+  -- facts about the pool fields of s1, by cases on the unused list
+  have hpoolfields :
+      (∀ x, (x = s.nextGlobal.2.1 ∨ x ∈ s.nextGlobal.2.2.unusedStk ∨
+          (if s.nextGlobal.2.2.newN = -1 then (s.n : Int) else s.nextGlobal.2.2.newN) ≤ x) ↔ s.abs.pool x) := by
+    intro x
+    cases hu : s.unusedStk with
+    | nil =>
+      rw [nextGlobal_nil hu] at hg0 ⊢
+      simp only [NodeIds.abs, hu, List.not_mem_nil, false_or] at hg0 ⊢
+      have : ¬ (s.effNew + 1 = -1) := by omega
+      simp only [this, if_false]
+      constructor
+      · rintro (h | h) <;> omega
+      · intro h; omega
+    | cons g rest =>
+      rw [nextGlobal_cons hu]
+      simp only [NodeIds.abs, hu, List.mem_cons, NodeIds.effNew]
+      constructor
+      · rintro (h | h | h)
+        · exact Or.inl (Or.inl h)
+        · exact Or.inl (Or.inr h)
+        · exact Or.inr h
+      · rintro ((h | h) | h)
+        · exact Or.inl h
+        · exact Or.inr (Or.inl h)
+        · exact Or.inr (Or.inr h)
+  generalize hs1 : s.nextGlobal.2.2 = s1 at *
+  generalize hgg : s.nextGlobal.2.1 = g at *
+  have h1 : NodeInv s1 := h.congr kg kb kn ks
+  have hfresh1 : s1.liveSlot g = none := by rw [liveSlot_congr kg]; exact hfresh
+  have hm : searchGlob s1.keys g = none := (search_none_iff h1).2 hfresh1
+  obtain ⟨h2, hnode, _⟩ := add_miss_NodeInv h1 hg0 hm
+  have hlive2 := add_live h1 hg0
+  have hadd_ok : (s1.add g).1 = .ok := (add_NodeInv h1 hg0).1
+  have hfields2 : (s1.add g).2.2.unusedStk = s1.unusedStk ∧ (s1.add g).2.2.newN = s1.newN ∧
+      (s1.add g).2.2.n = s1.n + 1 ∧ (s1.add g).2.2.global.getD (s1.add g).2.1 (-1) = g := by
+    rw [add_miss hg0 hm] at hnode ⊢
+    simp only [grow_unusedStk, grow_newN, true_and]
+    exact getD_set_self (by simpa [NodeIds.max] using hnode)
+  generalize hs2 : (s1.add g).2.2 = s2 at *
+  generalize hnd : (s1.add g).2.1 = node at *
+  obtain ⟨hu2, hnew2, hn2, hgl2⟩ := hfields2
+  have hvalid : s2.validSlot (node : Int) = true := validSlot_of_getD (by rw [hgl2]; exact hg0)
+  obtain ⟨hok3, h3⟩ := remove_NodeInv h2 hvalid
+  obtain ⟨_, _, hn3, hu3, hnew3, _⟩ := remove_fields h2 hvalid
+  refine ⟨hok1, hadd_ok, hok3, h3, ?_⟩
+  apply Abs.ext'
+  · intro x
+    show (s2.remove node).2.liveSlot x = s.liveSlot x
+    rw [remove_live h2 hvalid, Int.toNat_natCast, hgl2, hlive2 x, liveSlot_congr kg]
+    split
+    · rename_i hx; subst hx; exact hfresh.symm
+    · rfl
+  · intro x
+    rw [← hpoolfields x]
+    show (x ∈ (s2.remove node).2.unusedStk ∨ (s2.remove node).2.effNew ≤ x) ↔ _
+    simp only [NodeIds.effNew, hu3, hnew3, hn3, hn2, hu2, hnew2, Int.toNat_natCast, hgl2, List.mem_cons, kn]
+    have : ((s.n + 1 - 1 : Nat) : Int) = (s.n : Int) := by simp
+    rw [this, or_assoc]
+
 end Refine.Model.NodeIds
